@@ -13,9 +13,9 @@ func (s *Shard) ReviveObject(addr oid.Address) (meta.ReviveStatus, error) {
 	s.m.RLock()
 	defer s.m.RUnlock()
 
-	if s.GetMode().ReadOnly() {
+	if s.info.Mode.ReadOnly() {
 		return meta.ReviveStatus{}, ErrReadOnlyMode
-	} else if s.GetMode().NoMetabase() {
+	} else if s.info.Mode.NoMetabase() {
 		return meta.ReviveStatus{}, ErrDegradedMode
 	}
 
